@@ -419,8 +419,8 @@ Definition execute (cfg : config) (s : sources) (i : nat) (t : tdef) (key : str)
 
 (* Executor.LoadDependencyOutputs (load_outputs=minimal).  Direct dependencies, aliases resolved
    to their targets; a dependency whose result cannot be read is re-run and the loop RETURNS;
-   a dependency whose outputs cannot be loaded, or that is tagged no-cache, is re-run after
-   loading its own dependencies. *)
+   a dependency whose outputs cannot be loaded (or a no-cache dependency whose outputs are not in
+   place yet) is re-run after loading its own dependencies. *)
 Fixpoint load_dep_outputs (fuel : nat) (cfg : config) (s : sources) (ds : list nat) (b : bstate)
   : bool * bstate :=
   match fuel with
@@ -438,7 +438,7 @@ Fixpoint load_dep_outputs (fuel : nat) (cfg : config) (s : sources) (ds : list n
                   | None => execute cfg s d dt dkey false b           (* rerun; return *)
                   | Some r =>
                       let '(ok, b1) := load_outputs d dt r b in
-                      if negb ok || td_nocache dt then
+                      if negb ok || (td_nocache dt && negb (rt_loaded (get_rt b1 d))) then
                         let '(ok2, b2) := load_dep_outputs f cfg s (td_deps dt) b1 in
                         if negb ok2 then (false, b2)
                         else let '(ok3, b3) := execute cfg s d dt dkey false b2 in
